@@ -27,7 +27,7 @@ func init() {
 		ID:    "C18",
 		Level: "fault_enumeration",
 		Rule: "configurations = inputs {formatted, unformatted, unparsable, empty, 150 KB unformatted} x modes {-w on an .evy file, -w on a .txtar with evy members, -w on two files of which the " +
-			"second is unparsable, -c on a file, -c on stdin, no flag} x permission bits {0644, 0755, 0666, 0600, 0444, 0777, 0664 (quick: 0644, 0755, 0666)} under umask 022. For each configuration: a baseline run under strace -f -y " +
+			"second is unparsable, -c on a file, -c on the file followed by a formatted file, -c on stdin, no flag} x permission bits {0644, 0755, 0666, 0600, 0444, 0777, 0664 (quick: 0644, 0755, 0666)} under umask 022. For each configuration: a baseline run under strace -f -y " +
 			"collects the ordered list L of file-system syscalls that touch the scratch directory (by path or by descriptor); then for EVERY element of L and every errno in {ENOSPC, EIO, " +
 			"EACCES} one run with that call failing, and for EVERY element of L one run killed (SIGKILL) on entry to that call. Coverage is verified from the strace log ((INJECTED) / killed " +
 			"marker on the intended call); an element that cannot be hit after retries is listed as a gap and makes the run exhaustive:false. Oracle after every run: target bytes = original " +
@@ -137,6 +137,11 @@ func c18Setup(cfg c18Config) (*c18Files, error) {
 	case "c":
 		err = write("a.evy", content)
 		f.args = []string{"fmt", "-c", "a.evy"}
+	case "c-two": // the file under test followed by a formatted one: the verdict is about all files, not the last
+		if err = write("a.evy", content); err == nil {
+			err = write("z.evy", c18Content("formatted"))
+		}
+		f.args = []string{"fmt", "-c", "a.evy", "z.evy"}
 	case "c-stdin":
 		err = write("other.evy", "x:=1\nprint x\n")
 		f.args = []string{"fmt", "-c"}
@@ -375,7 +380,7 @@ func c18Oracle(c c18Case, f *c18Files, res *straceResult, viol func(sig, what, e
 	input := c18Content(cfg.Input)
 	want, parses := formatted(input)
 	switch cfg.Mode {
-	case "c", "c-stdin":
+	case "c", "c-stdin", "c-two":
 		if c.Fault == "" {
 			wantExit := 1
 			if parses && want == input {
@@ -443,7 +448,7 @@ func runC18(w *fw.Worker) {
 	}
 	var cfgs []c18Config
 	for _, in := range []string{"unformatted", "formatted", "unparsable", "empty", "large"} {
-		for _, mode := range []string{"w", "w-txtar", "w-two", "c", "c-stdin", "none"} {
+		for _, mode := range []string{"w", "w-txtar", "w-two", "c", "c-two", "c-stdin", "none"} {
 			for pi, perm := range perms {
 				if pi > 0 && (mode != "w" && mode != "w-txtar" || w.Quick() && in != "unformatted") {
 					continue // permission variants matter where a file is replaced
